@@ -43,7 +43,7 @@ Mutants (checks/mutants/C07/*.diff, run like C06's; exit 1 with seed 1 unless no
                                                                              mutant unobservable; the hang watchdog ends the harness process after reporting
   seeded C07-2 (LOC altitude indexes an empty token at end of input)         prefixes: zone/hostile:panic:prefix:LOC
   seeded C07-5 (endingToTxtSlice ignores l.err)                              insertions: zone/hostile:ill-formed-accepted:close:TXT etc.
-  seeded C07-6 ($GENERATE width parsed with Atoi)                            families generate-width: zone/hostile-line:generate (spec: width > 255 is an error), zone/hostile:alloc:generate
+  seeded C07-6 ($GENERATE width parsed with Atoi)                            families generate-width: zone/hostile:alloc:generate (12 MB for a 60-octet zone); zone/hostile-line:generate:generate-width (spec: width > 255 is an error)
 
 Findings on the unchanged tree: known-findings.d/C07.txt.
 """
@@ -57,7 +57,7 @@ SAFETY_SHAPES = "{1,2,6,19,22,24,25,26,30,31,34,35}"
 
 def sticky_key(e):
     if e.get("ev") == "line":
-        return "zone/hostile-line:" + e["line"]["k"]
+        return "zone/hostile-line:" + e["line"]["k"] + (":" + e["fam"] if e.get("fam") else "")
     if e.get("ev") in ("spell", "illtext"):
         return "INFRA"
     return "zone/sticky:%s:%s" % (e.get("ev"), e.get("res", ""))
